@@ -138,6 +138,9 @@ type c20op struct {
 	level  zapcore.Level
 	zero   bool // textual set into a zero-value AtomicLevel instead of the shared one
 	task   int
+	long   int // > 0: the level pair of a PUT body lies at about this offset behind padding
+	delta  int
+	strad  bool // form bodies: a valid name ends exactly at offset long and is followed by more text
 }
 
 const (
@@ -233,6 +236,17 @@ func runC20(c *Ctx) {
 		}
 		op.level = zapcore.Level(g.Draw(7) - 1)
 		op.zero = g.Chance(6)
+		if op.kind == c20Put && g.Chance(8) {
+			// a long body: the level pair sits at about a power-of-two offset
+			// (buffer sizes, read limits), either wholly behind it or with a
+			// valid name ending exactly there and more text following
+			op.long = []int{256, 512, 1024, 4096, 65536, 1 << 20}[g.Weighted(3, 3, 3, 2, 1, 1)]
+			op.delta = g.Draw(14) - 10
+			if op.form && !op.query && g.Chance(3) {
+				op.strad = true
+				op.text = []string{"debug", "info", "warn", "error", "dpanic", "panic", "fatal"}[g.Draw(7)] + pick(g, "junk", "x", "!", "0")
+			}
+		}
 		ops = append(ops, op)
 		c.MixState(uint64(op.kind)<<16 | uint64(len(op.text))<<8 | uint64(op.fault)<<4 | b2u(op.form)<<1 | b2u(op.query))
 	}
@@ -283,6 +297,22 @@ func runC20(c *Ctx) {
 						target += "?level=" + url.QueryEscape(op.text)
 					} else {
 						body = "level=" + url.QueryEscape(op.text)
+						if op.strad {
+							// "pad=aaa&level=" + name ends exactly at offset op.long
+							name := op.text[:len(op.text)-1]
+							for _, sfx := range []string{"junk", "x", "!", "0"} {
+								if strings.HasSuffix(op.text, sfx) {
+									name = strings.TrimSuffix(op.text, sfx)
+								}
+							}
+							if n := op.long - len("pad=&level=") - len(name); n > 0 {
+								body = "pad=" + strings.Repeat("a", n) + "&" + body
+							}
+						} else if op.long > 0 {
+							if n := op.long - len("pad=&") + op.delta; n > 0 {
+								body = "pad=" + strings.Repeat("a", n) + "&" + body
+							}
+						}
 					}
 				} else {
 					ctype = op.ctype
@@ -307,6 +337,11 @@ func runC20(c *Ctx) {
 						body = body + strings.Repeat(" ", 500) + tail
 						trailing = true
 					}
+					if op.long > 0 && !dup && !trailing {
+						if n := op.long - len(`{"pad":"",`) + op.delta; n > 0 {
+							body = `{"pad":"` + strings.Repeat("a", n) + `",` + body[1:]
+						}
+					}
 					switch op.text {
 					case "null":
 						body = `{"level":null}`
@@ -327,6 +362,9 @@ func runC20(c *Ctx) {
 				body = `{"level":"debug"}`
 			}
 			fr := &faultyReader{data: []byte(body), chunk: op.chunk, at: -1, fired: &readsFired}
+			if len(body) > 2048 {
+				fr.chunk = op.chunk * 512
+			}
 			if op.kind == c20Put && op.fault != 0 && !op.query {
 				fr.at = op.at
 				fr.err = errors.New("injected body read error")
@@ -377,7 +415,7 @@ func runC20(c *Ctx) {
 					return false
 				}
 				if op.kind == c20Put && truncated && op.fault == 1 {
-					c.Fail("C20: a PUT whose body could not be read completely changed the level", "PUT body %q, read error at offset %d: 200 %s", body, op.at, rec.Body.String())
+					c.Fail("C20: a PUT whose body could not be read completely changed the level", "PUT body %q, read error at offset %d: 200 %s", clipS(body), op.at, rec.Body.String())
 					return false
 				}
 				if op.kind == c20Put && truncated {
@@ -401,13 +439,13 @@ func runC20(c *Ctx) {
 						k1, l1 = 1, zapcore.InfoLevel
 					}
 					if !((k1 != 0 && named == l1) || (k2 != 0 && named == l2)) {
-						c.Fail("C20: a PUT set a level other than the one it named", "PUT %s answered %q", body, *resp.Level)
+						c.Fail("C20: a PUT set a level other than the one it named", "PUT %s answered %q", clipS(body), *resp.Level)
 						return false
 					}
 					accepted++
 					if seq {
 						if got := lvl.Level(); got != named {
-							c.Fail("C20: the response of a PUT does not name the level in force", "PUT %s answered %q, level is %s", body, *resp.Level, got)
+							c.Fail("C20: the response of a PUT does not name the level in force", "PUT %s answered %q, level is %s", clipS(body), *resp.Level, got)
 							return false
 						}
 						reg = named
@@ -425,7 +463,7 @@ func runC20(c *Ctx) {
 						kind, want = 1, zapcore.InfoLevel // the empty string reads as info
 					}
 					if kind == 0 {
-						c.Fail("C20: a PUT that names no valid level was accepted", "PUT %s body %q (form=%v): 200 %s", target, body, op.form, rec.Body.String())
+						c.Fail("C20: a PUT that names no valid level was accepted", "PUT %s body %q (form=%v): 200 %s", target, clipS(body), op.form, rec.Body.String())
 						return false
 					}
 					accepted++
@@ -466,16 +504,16 @@ func runC20(c *Ctx) {
 					kind, _ := c20classify(op.text)
 					jsonOdd := !op.form && (op.text == "null" || op.text == "{}" || op.text == "1" || op.text == "true")
 					if kind == 1 && !jsonOdd {
-						c.Fail("C20: a PUT that names a valid level was rejected", "PUT %s body %q (form=%v, content type %q): %d %s", target, body, op.form, ctype, status, rec.Body.String())
+						c.Fail("C20: a PUT that names a valid level was rejected", "PUT %s body %q (form=%v, content type %q): %d %s", target, clipS(body), op.form, ctype, status, rec.Body.String())
 						return false
 					}
 				}
 				if seq && lvl.Level() != before {
-					c.Fail("C20: a rejected request changed the level", "%s %s body %q: %d, level %s -> %s", method, target, body, status, before, lvl.Level())
+					c.Fail("C20: a rejected request changed the level", "%s %s body %q: %d, level %s -> %s", method, target, clipS(body), status, before, lvl.Level())
 					return false
 				}
 			default:
-				c.Fail("C20: a request was answered with a status that is neither 200 nor 4xx", "%s %s body %q (fault %d@%d): %d %s", method, target, body, op.fault, op.at, status, rec.Body.String())
+				c.Fail("C20: a request was answered with a status that is neither 200 nor 4xx", "%s %s body %q (fault %d@%d): %d %s", method, target, clipS(body), op.fault, op.at, status, rec.Body.String())
 				return false
 			}
 		case c20Unmarshal, c20FlagSet, c20JSONDecode, c20YAMLDecode:
